@@ -148,3 +148,27 @@ func verifCache(raw json.RawMessage) any {
 	verifSettle(base - 1)
 	return map[string]any{"obs": obs, "timeouts": timeouts}
 }
+
+// kind "jitter": the expiry jitter of the cache on its own -- AroundDuration/AroundInt of an
+// Unstable with the cache's deviation, one scripted draw per result, for any base duration.
+type verifJitterCase struct {
+	Base  int64   `json:"base"` // nanoseconds
+	Draws []int64 `json:"draws"`
+}
+
+func verifJitter(raw json.RawMessage) any {
+	var c verifJitterCase
+	if err := json.Unmarshal(raw, &c); err != nil {
+		return map[string]any{"error": err.Error()}
+	}
+	src := &verifSrc{}
+	u := mathx.VerifNewUnstable(expiryDeviation, src)
+	durs := make([]int64, len(c.Draws))
+	ints := make([]int64, len(c.Draws))
+	for i, d := range c.Draws {
+		src.next = d
+		durs[i] = int64(u.AroundDuration(time.Duration(c.Base)))
+		ints[i] = u.AroundInt(c.Base)
+	}
+	return map[string]any{"durs": durs, "ints": ints}
+}
